@@ -28,6 +28,9 @@ VARIABLE l
 PwOf(segs) == Pw([i \in 1..Len(segs) |-> Seg(segs[i].id, segs[i].len)])
 PwE == Pw(<<>>)
 PwBytes(segs) == LET F[i \in 0..Len(segs)] == IF i = 0 THEN 0 ELSE F[i - 1] + segs[i].len IN F[Len(segs)]
+\* the 127-byte cut of Algorithm 2.A (b) falls inside a multi-byte character of the password (split = 1 on the
+\* 95-byte segment, see MC_SecurityAlgorithms!SplitSegs)
+SplitAtCut(segs) == Len(segs) >= 3 /\ segs[2].split = 1
 RS(r) == "R" \o ToString(r.cfg.R)
 
 AlgOf(obs, R) ==
@@ -79,6 +82,12 @@ JudgeObs(r) ==
             THEN "streamdict.string"              \* a string in a stream dictionary is a string
             ELSE IF r.obs \in {"Perms", "r.perms.ok"} /\ R >= 5 /\ r.note = "stored-plaintext"
             THEN "Perms.R56.plaintext"            \* Algorithm 10 (f) not applied
+            ELSE IF R >= 5 /\ SplitAtCut(r.user)
+                    /\ (r.obs \in {"U", "UE"} \/ (r.obs \in {"r.auth", "r.fk"} /\ r.role = "user"))
+            THEN "password-cut-in-character.R56"  \* Algorithm 2.A (b) truncates the BYTE string
+            ELSE IF R >= 5 /\ SplitAtCut(r.owner)
+                    /\ (r.obs \in {"O", "OE"} \/ (r.obs \in {"r.auth", "r.fk"} /\ r.role = "owner"))
+            THEN "password-cut-in-character.R56"
             ELSE IF R >= 5 /\ PwBytes(r.user) > 127
                     /\ (r.obs \in {"U", "UE"} \/ (r.obs \in {"r.auth", "r.fk"} /\ r.role = "user"))
             THEN "password-over-127.R56"          \* Algorithm 2.A (b) applies to the password of Algorithm 8 too
@@ -113,6 +122,9 @@ JudgeOpen(r) ==
                                           ELSE IF opened /\ bads \subseteq {"str.streamdict"}
                                           THEN "ok-probe-pass." \o r.variant ELSE "ok-probe-fail." \o r.variant)
              ELSE IF "panic" \in {r.authU, r.authO, r.res} THEN "panic." \o cfgs
+             ELSE IF R >= 5 /\ SplitAtCut(r.try) /\ exp
+                     /\ ((expU /\ r.authU = "no") \/ (expO /\ r.authO = "no") \/ (r.authU = "na" /\ ~opened))
+             THEN "password-cut-in-character.R56"                           \* Algorithm 2.A (b) truncates the BYTE string
              ELSE IF r.authU \in {"yes", "no"} /\ (r.authU = "yes") # expU
              THEN "auth.user." \o (IF expU THEN "rejected." ELSE "accepted.") \o RS(r)
              ELSE IF r.authO \in {"yes", "no"} /\ (r.authO = "yes") # expO
